@@ -317,8 +317,24 @@ def check_k3(chk, m, cfg, L):
         if first_head:
             pr.assume_le(Lin.const(1), A)
             pr.assume_le(A, Lin.const(N - 1))
+        # a re-load of argc after the segment has stored to it sees the stored value (the engine forgets it when a store to
+        # argv[variable] intervenes; that store stays inside argv by K3.argv-store, so it cannot have changed argc)
+        fwd = {}
+        cur = None
+        for e in p.events:
+            if e.kind == "store" and e.ptr == argc_ptr:
+                cur = e.val
+            elif e.kind == "load" and e.ptr == argc_ptr and cur is not None and e.val[0] == "ld":
+                fwd[e.val] = cur
+
+        def forward(x, depth=0):
+            if not isinstance(x, tuple) or depth > 8:
+                return x
+            if x in fwd:
+                return forward(fwd[x], depth + 1)
+            return tuple(forward(y, depth) if isinstance(y, tuple) else y for y in x)
         for c, taken, inst in p.conds:
-            cc = strip_casts(c)
+            cc = strip_casts(forward(c))
             if cc[0] != "icmp":
                 continue
             a, b = expr_to_lin(cc[2], atom_of), expr_to_lin(cc[3], atom_of)
@@ -344,7 +360,7 @@ def check_k3(chk, m, cfg, L):
                     if root == ("arg", ca) and (off - argv_off) % m.ptr_size == 0 and (not var or (len(var) == 1 and var[0][1] == m.ptr_size)):
                         idx = Lin.const((off - argv_off) // m.ptr_size)
                         if var:
-                            idx = idx + expr_to_lin(var[0][0], atom_of)
+                            idx = idx + expr_to_lin(forward(var[0][0]), atom_of)
                         if off == L["cmd"][0] if "cmd" in L else False:
                             continue
                         n += 1
@@ -367,7 +383,7 @@ def check_k3(chk, m, cfg, L):
             for e in p.events:
                 if e.kind == "store" and e.ptr == argc_ptr:
                     fin = e.val
-            v = expr_to_lin(fin, atom_of) if fin is not None else A
+            v = expr_to_lin(forward(fin), atom_of) if fin is not None else A
             if all(isinstance(k, str) for k in v.atoms()):
                 ok = pr.prove_le(Lin.const(1), v) and pr.prove_le(v, Lin.const(N - 1))
                 if ok:
